@@ -150,6 +150,8 @@ macro_rules! work_type {
             id: u32,
             stage: u8,
             item: Option<Out>,
+            /// the futures returned by the closures are !Unpin: once polled they must not be moved
+            _pin: core::marker::PhantomPinned,
         }
         impl Drop for $name {
             fn drop(&mut self) {
@@ -159,7 +161,10 @@ macro_rules! work_type {
         impl Future for $name {
             type Output = $out;
             fn poll(self: Pin<&mut Self>, cx: &mut Context<'_>) -> Poll<$out> {
-                let $this = self.get_mut();
+                // SAFETY: nothing is moved out of the pinned value (the item is an Option that is taken, not the struct).
+                let $this = unsafe { self.get_unchecked_mut() };
+                let addr = $this as *const Self as usize;
+                with(|w| w.check_pinned($this.id, addr));
                 match leaf_poll($this.id, cx.waker()) {
                     LeafRes::Ready($o, $err) => Poll::Ready($ready),
                     _ => Poll::Pending,
@@ -197,28 +202,28 @@ fn map_fn<T: IntoOut>(stage: u8) -> impl Fn(T) -> Work + Clone {
     move |t: T| {
         let item = t.into_out();
         let id = invoked(stage, &item, false);
-        Work { id, stage, item: Some(item) }
+        Work { _pin: core::marker::PhantomPinned, id, stage, item: Some(item) }
     }
 }
 fn unit_fn<T: IntoOut>() -> impl Fn(T) -> WorkUnit + Clone {
     move |t: T| {
         let item = t.into_out();
         let id = invoked(TERMINAL, &item, false);
-        WorkUnit { id, stage: TERMINAL, item: Some(item) }
+        WorkUnit { _pin: core::marker::PhantomPinned, id, stage: TERMINAL, item: Some(item) }
     }
 }
 fn try_fn<T: IntoOut>() -> impl Fn(T) -> WorkTry + Clone {
     move |t: T| {
         let item = t.into_out();
         let id = invoked(TERMINAL, &item, true);
-        WorkTry { id, stage: TERMINAL, item: Some(item) }
+        WorkTry { _pin: core::marker::PhantomPinned, id, stage: TERMINAL, item: Some(item) }
     }
 }
 fn res_fn<T: IntoOut>() -> impl Fn(T) -> WorkRes + Clone {
     move |t: T| {
         let item = t.into_out();
         let id = invoked(TERMINAL, &item, true);
-        WorkRes { id, stage: TERMINAL, item: Some(item) }
+        WorkRes { _pin: core::marker::PhantomPinned, id, stage: TERMINAL, item: Some(item) }
     }
 }
 
@@ -582,7 +587,7 @@ pub fn runner(item: &PItem) {
                 Out::V(Val { id: val, canary: val ^ 0x5AFE_C0DE })
             })
             .collect();
-        <Sx<Sx<Z>> as Go>::go(v.into_co_stream(), &stack, 0, term)
+        <Sx<Sx<Z>> as Go>::go(crate::shape_vec(item, v).into_co_stream(), &stack, 0, term)
     } else {
         <Sx<Sx<Sx<Z>>> as Go>::go(Src(SLeaf { id: src_child }).co(), &stack, 0, term)
     };
